@@ -2,7 +2,9 @@
 (* C17 - the life of a design:                                                                                 *)
 (*    x --Design--> d1 --Export--> j1 ;  x --Design--> (twin)  ;  j1 --Load--> x2 --Design--> d2 --Export--> j2 *)
 (*    --Load--> ... for MaxRounds export / reload / redesign rounds, with the process-wide simulation           *)
-(*    parameters `simParams` as part of the state.                                                             *)
+(*    parameters `simParams` and the shared equipment library `lib` as part of the state.  Between d1 and the   *)
+(*    twin design the same library is used for another design with an explicit design power (args_power):       *)
+(*    DesignElsewhere.  Designing x again afterwards must still give d1.                                        *)
 (*                                                                                                            *)
 (* The network is the smallest line system that carries every mechanism the property depends on:               *)
 (*    ROADM -> amp 1 (booster) -> fibre (optionally a Raman fibre) -> amp 2 (preamp) -> ROADM                  *)
@@ -31,8 +33,9 @@ VARIABLES doc0,          \* the document the user supplied
           exports,       \* j1, j2, ... (the twin is kept apart)
           twin,
           props,         \* abstract result of the reference propagation on d1, d2, ...
-          simParams, sim0, simEntry, saved
-vars == <<doc0, doc, cfg, pc, round, carry, rgain, exports, twin, props, simParams, sim0, simEntry, saved>>
+          simParams, sim0, simEntry, saved,
+          lib            \* the equipment library object shared by every design of the process: [power |-> SI power_dbm]
+vars == <<doc0, doc, cfg, pc, round, carry, rgain, exports, twin, props, simParams, sim0, simEntry, saved, lib>>
 
 Temp == [flag |-> TRUE, method |-> "perturbative", order |-> 2, resultRes |-> 50000, solverRes |-> 100,
          nli |-> "gn_model_analytic", cc |-> <<NONE>>, ncc |-> NONE]       \* SimParams.set_params(sim_params) of the estimate
@@ -43,16 +46,20 @@ DefaultConOut == 0
 BaseLoss(d) == d.base + d.conOut + d.attIn
 Rule(nextLoss) == IF nextLoss = 0 THEN 0 ELSE IF nextLoss > 12 THEN 0 ELSE -2          \* power rule: a function of the next span only
 AutoVoa == 1
+PMax == 3                                                                              \* amplifier saturation: total offset allowed
+LibPower == 0                                                                          \* SI power_dbm of the library
+\* the reference power of a design is the library's SI power unless the call gives one; saturation reduces the offset
+Reduce(dp, refPower) == dp - MaxI(0, refPower + dp - PMax)
 Dev == IF simParams.flag THEN 1 ELSE 0                                                 \* SRS estimation depends on simParams
 RoundTo(x) == IF x = NONE THEN NONE ELSE (x \div Grid) * Grid
 
 AmpDesign(a, prevLoss, prevNet, nextLoss) ==
     LET voa0 == IF a.voa = NONE THEN 0 ELSE a.voa
-        dp0  == IF a.dp = NONE THEN Rule(nextLoss) + voa0 ELSE a.dp
+        dp0  == Reduce(IF a.dp = NONE THEN Rule(nextLoss) + voa0 ELSE a.dp, lib.power)
         useGain == a.gain # NONE /\ ~cfg.powerMode
         gain1 == IF useGain THEN a.gain ELSE prevLoss + Dev + dp0 - prevNet
         dp1  == IF useGain THEN prevNet - (prevLoss + Dev) + gain1 ELSE dp0
-        auto == IF a.voa = NONE /\ cfg.powerMode THEN AutoVoa ELSE 0
+        auto == IF a.voa = NONE /\ cfg.powerMode THEN MaxI(0, MinI(AutoVoa, PMax - lib.power - dp1)) ELSE 0   \* only the headroom
     IN [amp |-> [gain |-> gain1 + auto, dp |-> IF cfg.powerMode THEN dp1 + auto ELSE NONE, voa |-> voa0 + auto],
         net |-> dp1 - voa0]
 
@@ -61,13 +68,14 @@ Init == /\ doc0 \in Docs /\ cfg \in Cfgs /\ simParams \in Sims
         /\ doc = doc0 /\ sim0 = simParams /\ simEntry = simParams /\ saved = simParams
         /\ pc = "fibre" /\ round = 0 /\ carry = 0 /\ rgain = 0
         /\ exports = <<>> /\ twin = NoDoc /\ props = <<>>
+        /\ lib = [power |-> LibPower]
 
 CompleteFibre ==
     /\ pc = "fibre"
     /\ doc' = [doc EXCEPT !.conOut = (IF @ = NONE THEN DefaultConOut ELSE @) + (IF doc.aged THEN 0 ELSE cfg.eol),
                           !.aged = TRUE]
     /\ pc' = "pad" /\ simEntry' = simParams
-    /\ UNCHANGED <<doc0, cfg, round, carry, rgain, exports, twin, props, simParams, sim0, saved>>
+    /\ UNCHANGED <<doc0, cfg, round, carry, rgain, exports, twin, props, simParams, sim0, saved, lib>>
 
 Pad ==
     /\ pc = "pad"
@@ -75,31 +83,31 @@ Pad ==
               THEN [doc EXCEPT !.attIn = @ + cfg.padding - BaseLoss(doc)] ELSE doc
     /\ pc' = IF doc.raman THEN "rsave" ELSE "amp1"
     /\ rgain' = 0
-    /\ UNCHANGED <<doc0, cfg, round, carry, exports, twin, props, simParams, sim0, simEntry, saved>>
+    /\ UNCHANGED <<doc0, cfg, round, carry, exports, twin, props, simParams, sim0, simEntry, saved, lib>>
 
 \* estimate_raman_gain, network.py:313-325
 RamanSave    == pc = "rsave"    /\ saved' = simParams /\ pc' = "rtemp"
-                /\ UNCHANGED <<doc0, doc, cfg, round, carry, rgain, exports, twin, props, simParams, sim0, simEntry>>
+                /\ UNCHANGED <<doc0, doc, cfg, round, carry, rgain, exports, twin, props, simParams, sim0, simEntry, lib>>
 RamanSetTemp == pc = "rtemp"    /\ simParams' = Temp /\ pc' = "rsolve"
-                /\ UNCHANGED <<doc0, doc, cfg, round, carry, rgain, exports, twin, props, sim0, simEntry, saved>>
+                /\ UNCHANGED <<doc0, doc, cfg, round, carry, rgain, exports, twin, props, sim0, simEntry, saved, lib>>
 RamanSolve   == pc = "rsolve"   /\ rgain' = (IF simParams.flag THEN 5 ELSE 0) /\ pc' = "rrestore"
-                /\ UNCHANGED <<doc0, doc, cfg, round, carry, exports, twin, props, simParams, sim0, simEntry, saved>>
+                /\ UNCHANGED <<doc0, doc, cfg, round, carry, exports, twin, props, simParams, sim0, simEntry, saved, lib>>
 RamanRestore == pc = "rrestore" /\ simParams' = saved /\ pc' = "amp1"
-                /\ UNCHANGED <<doc0, doc, cfg, round, carry, rgain, exports, twin, props, sim0, simEntry, saved>>
+                /\ UNCHANGED <<doc0, doc, cfg, round, carry, rgain, exports, twin, props, sim0, simEntry, saved, lib>>
 
 SetAmp1 ==
     /\ pc = "amp1"
     /\ LET r == AmpDesign(doc.amps[1], 0, 0, BaseLoss(doc) - rgain)
        IN doc' = [doc EXCEPT !.amps[1] = r.amp] /\ carry' = r.net
     /\ pc' = "amp2"
-    /\ UNCHANGED <<doc0, cfg, round, rgain, exports, twin, props, simParams, sim0, simEntry, saved>>
+    /\ UNCHANGED <<doc0, cfg, round, rgain, exports, twin, props, simParams, sim0, simEntry, saved, lib>>
 
 SetAmp2 ==
     /\ pc = "amp2"
     /\ LET r == AmpDesign(doc.amps[2], BaseLoss(doc) - rgain, carry, 0)
        IN doc' = [doc EXCEPT !.amps[2] = r.amp] /\ carry' = r.net
     /\ pc' = "designed"
-    /\ UNCHANGED <<doc0, cfg, round, rgain, exports, twin, props, simParams, sim0, simEntry, saved>>
+    /\ UNCHANGED <<doc0, cfg, round, rgain, exports, twin, props, simParams, sim0, simEntry, saved, lib>>
 
 Exported(d) == [d EXCEPT !.amps = [k \in 1..2 |-> [d.amps[k] EXCEPT !.gain = RoundTo(@)]]]
 Propagation(d) == d.amps[1].gain + d.amps[2].gain - BaseLoss(d) + rgain
@@ -109,18 +117,26 @@ Export ==
     /\ IF round = 1 THEN twin' = Exported(doc) /\ UNCHANGED <<exports, props>>
        ELSE exports' = Append(exports, Exported(doc)) /\ props' = Append(props, Propagation(doc)) /\ UNCHANGED twin
     /\ pc' = "exported"
-    /\ UNCHANGED <<doc0, doc, cfg, round, carry, rgain, simParams, sim0, simEntry, saved>>
+    /\ UNCHANGED <<doc0, doc, cfg, round, carry, rgain, simParams, sim0, simEntry, saved, lib>>
+
+\* designed_network(lib, another network, args_power = p): the reference power of THAT design is p; the library is an
+\* input of the call and stays as it is
+DesignElsewhere ==
+    /\ pc = "exported" /\ round = 0 /\ twin = NoDoc
+    /\ \E p \in {LibPower + 3} : lib' = lib
+    /\ pc' = "elsewhere"
+    /\ UNCHANGED <<doc0, doc, cfg, round, carry, rgain, exports, twin, props, simParams, sim0, simEntry, saved>>
 
 \* round 0 -> design the user's input once more (fresh load of the same file); later -> load the last export
 Load ==
-    /\ pc = "exported"
+    /\ pc = (IF round = 0 THEN "elsewhere" ELSE "exported")
     /\ IF Len(exports) > MaxRounds THEN pc' = "end" /\ UNCHANGED <<doc, round>>
        ELSE /\ doc' = IF round = 0 THEN doc0 ELSE exports[Len(exports)]
             /\ round' = round + 1 /\ pc' = "fibre"
     /\ carry' = 0
-    /\ UNCHANGED <<doc0, cfg, rgain, exports, twin, props, simParams, sim0, simEntry, saved>>
+    /\ UNCHANGED <<doc0, cfg, rgain, exports, twin, props, simParams, sim0, simEntry, saved, lib>>
 
-Next == CompleteFibre \/ Pad \/ RamanSave \/ RamanSetTemp \/ RamanSolve \/ RamanRestore \/ SetAmp1 \/ SetAmp2
+Next == DesignElsewhere \/ CompleteFibre \/ Pad \/ RamanSave \/ RamanSetTemp \/ RamanSolve \/ RamanRestore \/ SetAmp1 \/ SetAmp2
         \/ Export \/ Load
 Spec == Init /\ [][Next]_vars
 
@@ -136,10 +152,12 @@ Deterministic == twin # NoDoc => twin = exports[1]
 \* a saved design reproduces the same propagation result (to the export's rounding, one grid step per amplifier)
 PropagationReproduced == \A k \in 1..(Len(props) - 1) : Within(props[k], props[k + 1], 2 * Grid)
 \* auto-design leaves the process-wide simulation parameters exactly as it found them ...
-DesignLeavesSimParams == pc \in {"designed", "exported", "end"} => simParams = simEntry
+DesignLeavesSimParams == pc \in {"designed", "exported", "elsewhere", "end"} => simParams = simEntry
 \* ... and they only ever differ from the initial setting inside estimate_raman_gain, between SetTemp and Restore
 SimParamsOnlyTemporarilyChanged == pc \notin {"rsolve", "rrestore"} => simParams = sim0
 DesignAsAWholeKeepsSimParams == [][pc' = "designed" => simParams' = simEntry]_vars
+\* the equipment library is an input: no design changes it
+LibraryUnchanged == lib = [power |-> LibPower]
 \* design settles every setting
 EverythingDesigned == pc = "designed" =>
     /\ doc.conOut # NONE
